@@ -79,7 +79,11 @@ VAR_EXTRA = [[m, None] for m in MODS] + [
     # values that end like the closing delimiters of the three syntaxes
     ['missing', '/'], ['etc', 'a/'], ['null', 'n/a/'], ['missing', '-'],
     ['etc', '--'], ['null', 'x-'], ['missing', '['], ['etc', 's'],
-    ['null', '//'], ['missing', '?']]
+    ['null', '//'], ['missing', '?'],
+    # white space inside a (quoted) value is part of the value
+    ['missing', 'a  b'], ['null', 'x\ty'], ['etc', ' ..  '],
+    ['missing', 'two\nlines'], ['null', '  '], ['etc', 'a \t b'],
+    ['missing', ' lead'], ['null', 'trail ']]
 IN_EXTRA = [['reverse', None], ['sort', 'va'], ['sort', 'va,xi/cmp/desc'],
             ['size', '2'], ['start', '2'], ['end', '2'], ['orphan', '1'],
             ['overlap', '1'], ['sort_expr', "'va'"],
